@@ -178,8 +178,8 @@ def replay_behaviour(steps, stats=None):
                 probs += w.check_props()
                 if probs:
                     break
-        if not probs:
-            probs += w.final_log_check()
+        if not probs:       # the real calls are atomic: the world is idle even if the behaviour stops mid fan-out
+            probs += w.check_props() + w.final_log_check()
     except Mismatch as m:
         probs.append((m.key, m.what))
     finally:
@@ -298,9 +298,9 @@ def random_world(rng: random.Random, acyclic: bool, mutate=None):
     return w
 
 
-def write_traces(path, worlds):
+def write_traces(path, worlds, header=None):
     with open(path, "w") as f:
-        f.write(json.dumps({"a": "Header", "topics": TOPICS, "params": PARAMS, "procs": PROCS, "ns": 6}) + "\n")
+        f.write(json.dumps(header or {"a": "Header", "topics": TOPICS, "params": PARAMS, "procs": PROCS, "ns": 6}) + "\n")
         for tid, evs in worlds:
             f.write(json.dumps({"a": "Begin", "tid": tid, "n": len(evs)}) + "\n")
             for e in evs:
@@ -353,11 +353,11 @@ def tlc_trace(spec, cfg, workdir, trace_file, tag):
     return res
 
 
-def validate_traces(run, spec, cfg, worlds, name, expect_reject=None):
+def validate_traces(run, spec, cfg, worlds, name, header=None):
     """worlds: list of (tid, events).  Returns dict tid -> (line_in_trace, event) of rejected traces.
     An invariant violation inside TLC is returned as {"invariant": name, "tid": ...}."""
     path = os.path.join(run.workdir, f"{name}.ndjson")
-    write_traces(path, worlds)
+    write_traces(path, worlds, header)
     res = tlc_trace(spec, cfg, run.workdir, path, name)
     out = res["out"]
     rejected = {}
@@ -866,3 +866,360 @@ def _est_trace(r, start, est_cls):
         else:
             w.imu(t, ok=r.random() < 0.85)
     return w.ev
+
+
+# ======================================================================================
+# self-test of the binding (DESIGN section 7): failure => MachineryError (exit 2)
+# ======================================================================================
+def selftest(run, seed):
+    results = {}
+    rng = random.Random(seed + 99)
+    # ---- (a)/(b) trace corruption: a corrupted field / a dropped line must be rejected by TLC
+    base = []
+    for tid in range(1, 9):
+        w = random_world(random.Random(rng.getrandbits(32)), True)
+        base.append((tid, w.ev))
+    bad = []
+    kinds = {}
+    tid = 100
+    for _, evs in base:
+        idx_d = [i for i, e in enumerate(evs) if e["a"] == "Deliver"]
+        idx_r = [i for i, e in enumerate(evs) if e["a"] == "LoggerRow" and i > 0]
+        idx_e = [i for i, e in enumerate(evs) if e["a"] == "PublishEnd"]
+        idx_o = [i for i, e in enumerate(evs) if e["a"] == "Obs" and e["cache"]]
+        if idx_d:
+            ev = copy.deepcopy(evs); i = rng.choice(idx_d); ev[i]["msg"] += 1
+            tid += 1; bad.append((tid, ev)); kinds[tid] = "Deliver.msg+1"
+            ev = copy.deepcopy(evs); i = rng.choice(idx_d); ev[i]["sub"] = 0 if ev[i]["sub"] else 1
+            tid += 1; bad.append((tid, ev)); kinds[tid] = "Deliver.sub changed"
+            ev = copy.deepcopy(evs); i = rng.choice(idx_d); del ev[i]
+            tid += 1; bad.append((tid, ev)); kinds[tid] = "Deliver line dropped"
+        if idx_e:
+            ev = copy.deepcopy(evs); i = rng.choice(idx_e); del ev[i]
+            tid += 1; bad.append((tid, ev)); kinds[tid] = "PublishEnd line dropped"
+        if len(idx_r) > 1:
+            ev = copy.deepcopy(evs); i = idx_r[-1]; ev[i]["t_now"] += 1
+            tid += 1; bad.append((tid, ev)); kinds[tid] = "LoggerRow.t_now+1"
+            ev = copy.deepcopy(evs); i = idx_r[len(idx_r) // 2]; del ev[i]
+            tid += 1; bad.append((tid, ev)); kinds[tid] = "LoggerRow line dropped"
+        if idx_o:
+            ev = copy.deepcopy(evs); i = rng.choice(idx_o); k = sorted(ev[i]["cache"])[0]; ev[i]["cache"][k] += 1
+            tid += 1; bad.append((tid, ev)); kinds[tid] = "Obs.cache+1"
+    res, rejected, inv = validate_traces(run, "UrosBusTrace.tla", "UrosBusTrace.cfg", base + bad, "selftest")
+    run.add_tlc("UrosBusTrace/selftest", res)
+    if inv:
+        raise MachineryError(f"selftest: unexpected invariant violation {inv}")
+    good_rej = [t for t, _ in base if t in rejected]
+    missed = [(t, kinds[t]) for t, _ in bad if t not in rejected]
+    if good_rej or missed or not bad:
+        raise MachineryError(f"selftest(trace corruption) failed: pristine traces rejected {good_rej}, corrupted traces accepted {missed}")
+    results["trace_corruptions_rejected"] = f"{len(bad)}/{len(bad)} ({sorted(set(kinds.values()))}); {len(base)} pristine traces accepted"
+
+    # estimator traces: flip a decision / drop a line
+    est = []
+    r2 = random.Random(seed + 5)
+    for t in range(1, 7):
+        st = r2.random() < 0.3
+        est.append((t, st, _est_trace(r2, st, None)))
+    badest = []
+    t = 100
+    for _, st, evs in est:
+        idx = [i for i, e in enumerate(evs) if e["a"] == "imu" and e["predict"] == 1]
+        if idx:
+            ev = copy.deepcopy(evs); i = r2.choice(idx); ev[i]["acc"] = 1 - ev[i]["acc"]
+            t += 1; badest.append((t, st, ev))
+            ev = copy.deepcopy(evs); i = r2.choice(idx); ev[i]["dt"] += 7
+            t += 1; badest.append((t, st, ev))
+    path = os.path.join(run.workdir, "selftest_est.ndjson")
+    # tids must be 1..N for the register bookkeeping: renumber
+    allest = [(k + 1, st, ev) for k, (_, st, ev) in enumerate(est + badest)]
+    write_est_traces(path, allest)
+    r = tlc_trace("EstimatorNodeTrace.tla", "EstimatorNodeTrace.cfg", run.workdir, path, "selftest_est")
+    rej = {int(m.group(1)) for m in re.finditer(r'<<"REJECT", (\d+), (\d+), (\d+)>>', r["out"])}
+    want = set(range(len(est) + 1, len(allest) + 1))
+    # an acc flip exactly at a tie is legitimately accepted: tolerate at most ties
+    if rej - want or len(want - rej) > len(want) // 4 or not want:
+        raise MachineryError(f"selftest(estimator traces) failed: rejected {sorted(rej)}, expected {sorted(want)}")
+    results["estimator_trace_corruptions_rejected"] = f"{len(rej & want)}/{len(want)}"
+
+    # ---- (c) known-bad variants of the code, in this process only
+    def mutant_run(mut, wanted, n=12, acyclic=True):
+        found = set()
+        tr_rej = 0
+        worlds = []
+        for k in range(n):
+            s = rng.getrandbits(32)
+            box = {}
+
+            def m(w):
+                box["w"] = w
+                mut(w)
+            try:
+                w = random_world(random.Random(s), acyclic, mutate=m)
+            finally:
+                restore_mutant(box["w"]) if "w" in box else None
+            found |= {key for key, _ in w.check_props() + w.final_log_check()}
+            worlds.append((k + 1, w.ev))
+        return found, worlds
+    f1, w1 = mutant_run(mutant_fanout_first_only, None)
+    if "publish/exactly-once/missing" not in f1:
+        raise MachineryError(f"selftest: fan-out that stops after the first subscriber was not flagged ({f1})")
+    _, rej1, inv1 = validate_traces(run, "UrosBusTrace.tla", "UrosBusTrace.cfg", w1, "mut1")
+    if not rej1 and not inv1:
+        raise MachineryError("selftest: TLC accepted every trace of the first-subscriber-only fan-out")
+    results["mutant fan-out stops after first subscriber"] = f"flagged {sorted(f1)}; TLC rejected {len(rej1)}/{len(w1)} traces"
+    f2, w2 = mutant_run(mutant_no_typecheck, None, n=20)
+    _, rej2, inv2 = validate_traces(run, "UrosBusTrace.tla", "UrosBusTrace.cfg", w2, "mut2")
+    if not rej2 and not inv2:
+        raise MachineryError("selftest: publish without type check was not flagged by trace validation")
+    results["mutant publish without type check"] = f"TLC rejected {len(rej2)}/{len(w2)} traces at PublishBegin"
+    f3, _ = mutant_run(mutant_logger_nocopy, None)
+    if not any(k.startswith("logger/row/") for k in f3):
+        raise MachineryError(f"selftest: logger without deep copy was not flagged ({f3})")
+    results["mutant logger without deepcopy"] = f"flagged {sorted(k for k in f3 if k.startswith('logger/'))}"
+    # engine B must flag the first mutant too (model vs code)
+    steps = _fixed_behaviour()
+    w = None
+    saved = None
+    try:
+        uros_rec._install(__import__("cyecca.sim.uros", fromlist=["x"]))
+        saved = uros_rec._orig_publish
+
+        def bad(self, msg):
+            if not isinstance(msg, self.msg_type):
+                raise ValueError("type")
+            for s in self.core._subscribers.get(self.topic, [])[:1]:
+                s.callback(msg)
+        uros_rec._orig_publish = bad
+        probs, _ = replay_behaviour(steps)
+    finally:
+        if uros_rec._orig_publish is not None and saved is not None:
+            uros_rec._orig_publish = saved
+        uros_rec._uninstall(__import__("cyecca.sim.uros", fromlist=["x"]))
+    if not probs:
+        raise MachineryError("selftest: engine B did not flag the first-subscriber-only fan-out")
+    results["engine B on mutant fan-out"] = f"flagged {probs[0][0]}"
+    probs, _ = replay_behaviour(steps)
+    if probs:
+        raise MachineryError(f"selftest: engine B flags the pristine code on the fixed behaviour: {probs}")
+    # estimator mutants
+    Bad = make_bad_estimator()
+    found = set()
+    r3 = random.Random(seed + 11)
+    for _ in range(30):
+        found |= {k for k, _ in est_props(_est_trace(r3, r3.random() < 0.5, Bad))}
+    if "estimator/predict/dt<=0" not in found:
+        raise MachineryError(f"selftest: estimator without the dt <= 0 guard was not flagged ({found})")
+    results["mutant estimator without dt<=0 guard"] = f"flagged {sorted(found)}"
+    Bad2 = make_bad_rate_estimator()
+    found = set()
+    for _ in range(30):
+        found |= {k for k, _ in est_props(_est_trace(r3, r3.random() < 0.5, Bad2))}
+    if "estimator/accel/rate" not in found:
+        raise MachineryError(f"selftest: estimator with a broken accel rate limit was not flagged ({found})")
+    results["mutant estimator rate limit vs wrong time stamp"] = f"flagged {sorted(found)}"
+    return results
+
+
+def _fixed_behaviour():
+    """a hand-written model behaviour (act records + idle states) used by the engine-B self-test:
+    two sinks on one topic, one publish"""
+    def st(act, stack, recv, nmsg, sent):
+        return {"act": act, "stack": stack, "recv": recv, "lrecv": {}, "locked": False, "cache": {}, "inited": False,
+                "params": {}, "rows": (), "now": 0, "nmsg": nmsg, "sent": sent, "reent": False}
+    f = lambda i: ({"topic": "a", "msg": 1, "i": i},)
+    return [("Init", st({"a": "Init", "err": "ok"}, (), ((), ()), 0, {})),
+            ("CreatePublisher", st({"a": "CreatePublisher", "topic": "a", "ty": "A", "err": "ok"}, (), ((), ()), 0, {})),
+            ("CreateSubscriber", st({"a": "CreateSubscriber", "sub": 1, "topic": "a", "kind": "sink", "out": "none", "budget": 0, "err": "ok"}, (), ((), ()), 0, {})),
+            ("CreateSubscriber", st({"a": "CreateSubscriber", "sub": 2, "topic": "a", "kind": "sink", "out": "none", "budget": 0, "err": "ok"}, (), ((), ()), 0, {})),
+            ("PublishBegin", st({"a": "PublishBegin", "topic": "a", "ty": "A", "err": "ok"}, f(1), ((), ()), 1, {})),
+            ("Deliver", st({"a": "Deliver", "topic": "a", "msg": 1, "sub": 1, "depth": 1, "err": "ok"}, f(2), ((1,), ()), 1, {})),
+            ("Deliver", st({"a": "Deliver", "topic": "a", "msg": 1, "sub": 2, "depth": 1, "err": "ok"}, f(3), ((1,), (1,)), 1, {})),
+            ("PublishEnd", st({"a": "PublishEnd", "topic": "a", "msg": 1, "err": "ok"}, (), ((1,), (1,)), 1, {}))]
+
+
+# ======================================================================================
+# real nodes on the bus (Simulator + AttitudeEstimator + Logger), API-level and through the hook
+# ======================================================================================
+def real_nodes_trace(tf=0.05):
+    """the object graph of launch_sim built here (so that recorders can be attached before the logger locks
+    the bus), with proxy equations; returns the World"""
+    import numpy as np
+    import cyecca.sim.msgs as msgs
+    from cyecca.estimate.attitude.estimator import AttitudeEstimator
+    from cyecca.estimate.attitude.simulator import Simulator
+    import io
+    import contextlib
+    w = World(type_map={"Imu": msgs.Imu, "Mag": msgs.Mag, "Attitude": msgs.Attitude, "EstimatorStatus": msgs.EstimatorStatus})
+    try:
+        prox = Proxy()
+        eq = prox.eqs()
+        x6 = np.zeros(6)
+        eq["sim"] = {"simulate": lambda t, x, om, sn, wn, dt: x, "get_state": eq["get_state"],
+                     "measure_gyro": lambda x, om, s, n: np.zeros(3), "measure_accel": lambda x, g, s, n: np.array([0, 0, 9.8]),
+                     "measure_mag": lambda x, a, b, c, d, n: np.array([0.2, 0, 0.4])}
+        # creation events are emitted by hand in the order the constructors perform them
+        def pub(topic, ty):
+            w.emit(a="CreatePublisher", topic=topic, ty=ty, err="ok")
+            w.ptype[topic] = ty
+            w.sent.setdefault(topic, [])
+        sid = [0]
+
+        def sub(obj, topic, kind):
+            sid[0] += 1
+            s = sid[0]
+            w.emit(a="CreateSubscriber", sub=s, topic=topic, kind=kind, out="none", budget=0, err="ok")
+            w.sub[s] = {"topic": topic, "kind": kind, "since": 0, "params": []}
+            w.recv[s] = []
+            obj.callback = w._wrap(s, topic, obj.callback)
+            return s
+
+        def params(plist, owner):
+            for p in plist:
+                v = float(p.get())
+                w.emit(a="DeclareParam", p=p.name, owner=owner, v=int(round(v * 1e6)), err="ok")
+                w.param[p.name] = p
+                w.owner[p.name] = owner
+        w.content_ids = False
+        w.enc = lambda name, v: uros_rec.quanta(v) if name == uros_rec.LDT else int(round(float(v) * 1e6))
+        w.dec = lambda name, v: v / Q if name == uros_rec.LDT else v * 1e-6
+        with contextlib.redirect_stdout(io.StringIO()):
+            sim = Simulator(w.core, eq, x6)
+            for t, ty in (("sim_attitude", "Attitude"), ("imu", "Imu"), ("mag", "Mag")):
+                pub(t, ty)
+            s = sub(sim.sub_params, "params", "follower")
+            params(sim.param_list, s)
+            est = AttitudeEstimator(w.core, "mrp", eq, True)
+            sub(est.sub_imu, "imu", "free")
+            sub(est.sub_mag, "mag", "sink")
+            pub("mrp_status", "EstimatorStatus"); pub("mrp_attitude", "Attitude")
+            s = sub(est.sub_params, "params", "follower")
+            params(est.param_list, s)
+            w.pubs.update({"imu": sim.pub_imu, "mag": sim.pub_mag})
+            lg = w.uros.Logger(w.core)
+            w.emit(a="CreateLogger", err="ok")
+            w.adopt_logger(lg)
+            w.init_params()
+            w.set_param("mrp/dt_min_mag", 20000)
+            w.obs()
+            # every top-level publish after Run comes from the Simulator's process
+            w.run()
+            w.proc_mode = True
+            import simpy
+            w.absorb_factory = True
+            simpy.Environment.run(w.core, until=tf)
+            w.obs()
+        w.prox = prox
+    finally:
+        w.close()
+    return w
+
+
+def real_nodes(run):
+    w = real_nodes_trace(0.1)
+    probs = w.check_props() + w.final_log_check()
+    report(run, probs, {"engine": "C-real-nodes"})
+    hdr = {"a": "Header", "topics": sorted(t for t in w.ptype if t != "params"),
+           "params": sorted(n for n in w.param if n != uros_rec.LDT), "procs": [], "ns": len(w.sub)}
+    res, rej, inv = validate_traces(run, "UrosBusTrace.tla", "UrosBusTrace.cfg", [(1, w.ev)], "realnodes", hdr)
+    run.add_tlc("UrosBusTrace/real-nodes", res)
+    if inv:
+        run.violation(f"trace/invariant/{inv['invariant']}", "Simulator+AttitudeEstimator+Logger run violates " + inv["invariant"],
+                      {"engine": "C-real-nodes"})
+    for tid, (line, e) in rej.items():
+        a = e["a"] if e else "end"
+        run.violation(f"trace/rejected/{a}", f"Simulator+AttitudeEstimator+Logger trace rejected at line {line}: {e}; clause: {CLAUSE.get(a, a)}",
+                      {"engine": "C-real-nodes", "line": line, "event": e})
+    nested = sum(1 for e in w.ev if e["a"] == "Nested")
+    if nested == 0:
+        raise MachineryError("real-node run: the estimator never published from inside its callback (vacuous)")
+    run.count("real_node_events", len(w.ev))
+    return 0 if (rej or inv) else 1
+
+
+def replay_file(run, path):
+    d = json.load(open(path))
+    data = d.get("data") or {}
+    eng = data.get("engine")
+    if eng == "B":
+        steps = [(a, s) for a, s in data["steps"]]
+        probs, info = replay_behaviour(steps)
+        report(run, probs, data)
+    elif eng == "C":
+        w = random_world(random.Random(data["wiring_seed"]), data["acyclic"])
+        report(run, w.check_props() + w.final_log_check(), data)
+        res, rej, inv = validate_traces(run, "UrosBusTrace.tla", "UrosBusTrace.cfg", [(1, w.ev)], "replay")
+        for tid, (line, e) in rej.items():
+            run.violation(f"trace/rejected/{e['a'] if e else 'end'}", f"rejected at line {line}: {e}", data)
+        if inv:
+            run.violation(f"trace/invariant/{inv['invariant']}", "replayed trace violates " + inv["invariant"], data)
+    elif eng == "B-est":
+        probs, drift, ev = replay_est_behaviour([(a, s) for a, s in data["steps"]])
+        report(run, probs, data)
+    elif eng == "C-est":
+        report(run, est_props(data["events"]), data)
+    elif eng == "script":
+        p2, got, reent = scripted_two_topic()
+        report(run, p2, data)
+    else:
+        raise MachineryError(f"replay file {path} has no replayable engine tag")
+    return run.finish({"traces_validated_against_impl": 1, "replay_of": path})
+
+
+def main():
+    tier = sys.argv[1] if len(sys.argv) > 1 and not sys.argv[1].startswith("-") else "quick"
+    if tier not in TIERS:
+        raise MachineryError(f"unknown tier {tier}")
+    run = Run(PID, tier)
+    seed = run.seed
+    if "--replay" in sys.argv:
+        return replay_file(run, sys.argv[sys.argv.index("--replay") + 1])
+    if "--selftest" in sys.argv:
+        r = selftest(run, seed)
+        for k, v in r.items():
+            print(f"selftest: {k}: {v}")
+        import shutil
+        shutil.rmtree(run.workdir, ignore_errors=True)
+        return 0
+    hook = hook_present()
+    # model checking runs in the background while the conformance engines work
+    ex = cf.ThreadPoolExecutor(1)
+    fut_mc = ex.submit(model_checking, run, tier)
+    st = selftest(run, seed) if (tier == "thorough" or os.environ.get("VERIF_SELFTEST") == "1") else None
+    nB, statsB = engine_b_bus(run, tier, seed)
+    nBe, cellsE = engine_b_est(run, tier, seed)
+    nC = engine_c_bus(run, tier, seed)
+    nCe, _ = engine_c_est(run, tier, seed)
+    nR = real_nodes(run)
+    nH = 0
+    hook_note = "hook absent: API-level observation only (callback wrappers, in-process publish wrapper, proxy eqs, row list)"
+    if hook:
+        from harness import uros_hook
+        nH = uros_hook.run_hooked(run, validate_traces, tlc_trace)
+        hook_note = f"hook present (CYECCA_VERIF={os.environ.get('CYECCA_VERIF')}): {nH} launch_sim traces recorded through uros._verif_emit"
+    res = fut_mc.result()
+    reentrancy_finding(run, res)
+    run.assumptions += [
+        "set-up calls are made at top level and before Core.run; callbacks return normally (an exception in a callback aborts the fan-out: outside the model)",
+        "parameters are declared before init_params (a later declaration leaves core._params with a stale dtype: run() then raises TypeError in the logger / Param.update raises ValueError)",
+        "exhaustive models are bounded (see tlc_runs / constants in the cfg files); larger wirings only through -simulate behaviours and randomised traces",
+        "time is quantised to 1/128000 s; harness processes use dyadic periods (multiples of 2^-10 s) so that float sums are exact",
+        "estimator: only scheduling decisions (proxy equations); exact ties of a rate limit (gap == dt_min - 1 ms in whole microseconds) may fall either way in double arithmetic and are accepted both ways",
+        "Param.set() calls the non-existent Core._set_param (AttributeError after changing the local value): not covered by the property text, noted only",
+        hook_note,
+    ]
+    total = nB + nBe + nC + nCe + nR + nH
+    return run.finish({
+        "traces_validated_against_impl": total,
+        "engineB_bus_behaviours": nB, "engineB_estimator_behaviours": nBe,
+        "engineC_bus_traces": nC, "engineC_estimator_traces": nCe, "engineC_real_node_traces": nR, "hook_traces": nH,
+        "engineB_action_counts": statsB, "estimator_decision_cells": cellsE,
+        "selftest": st if st is not None else "run with --selftest (always part of the thorough tier)",
+        "hook": hook_note,
+        "rule": "one behaviour = one TLC -simulate trace replayed call by call into real uros objects; one trace = one real execution validated by TLC",
+        "exhaustive": True,
+    })
+
+
+if __name__ == "__main__":
+    main_wrap(main)
